@@ -7,6 +7,7 @@ import Gnet.Driver.LB
 import Gnet.Driver.Pool
 import Gnet.Driver.Msq
 import Gnet.Driver.Wake
+import Gnet.Driver.Sockaddr
 
 def main (args : List String) : IO UInt32 := do
   match args with
@@ -19,4 +20,5 @@ def main (args : List String) : IO UInt32 := do
   | ["pool"] => Gnet.Driver.PoolD.main; return 0
   | ["msq"] => Gnet.Driver.MsqD.main; return 0
   | ["wake"] => Gnet.Driver.WakeD.main; return 0
+  | ["sockaddr"] => Gnet.Driver.SockaddrD.main; return 0
   | _ => IO.eprintln "usage: gnetmodel <component>"; return 2
